@@ -216,6 +216,34 @@ def extract_all(config='prod', extra_flags=(), jobs=16, verbose=False):
     return fdir, index, len(cdb)
 
 
+def extract_witness(name, text, like_unit_suffix):
+    """Run the extractor on a small generated translation unit (`text`) with the compile flags of the repository unit whose
+    path ends with `like_unit_suffix`; returns the parsed facts.  Used for constant-evaluation witnesses (clang's constant
+    evaluator decides the values; nothing is executed)."""
+    build_extractor()
+    cdb = get_compdb()
+    like = [u for u in cdb if u['file'].endswith(like_unit_suffix)]
+    if not like:
+        raise AnalysisBroken('no unit %s in the compile database' % like_unit_suffix)
+    flags = like[0]['args']
+    wd = os.path.join(CACHE, 'witness')
+    os.makedirs(wd, exist_ok=True)
+    key = sha((text + ' '.join(flags) + headers_hash()).encode())
+    src = os.path.join(wd, '%s.%s.c' % (name, key))
+    out = os.path.join(wd, '%s.%s.json' % (name, key))
+    if not os.path.exists(out):
+        for e in os.listdir(wd):
+            if e.startswith(name + '.'):
+                os.remove(os.path.join(wd, e))
+        open(src, 'w').write(text)
+        cmd = [EXTRACTOR, '--out', out, '--root', wd + '/', src, '--'] + flags + ['-I' + os.path.dirname(like[0]['file']),
+                                                                                 '-resource-dir', RESOURCE_DIR, '-w', '-Wno-everything']
+        r = subprocess.run(cmd, capture_output=True, text=True)
+        if r.returncode != 0 or not os.path.exists(out):
+            raise AnalysisBroken('witness %s does not compile: %s' % (name, r.stderr[-1200:]))
+    return json.load(open(out))
+
+
 if __name__ == '__main__':
     t = time.time()
     fdir, index, n = extract_all(verbose=True)
